@@ -23,8 +23,10 @@ for d, label in (("seeded", "sub-agent change"), ("regressions", "reverted fix")
                 l = l.strip().lstrip("# ").strip()
                 if l:
                     what = re.sub(r"^Mutant\s*\S*\s*[-–—:]\s*", "", l); break
+        mp = os.path.join(V, d, name, "meta.json")
+        oor = json.load(open(mp)).get("out_of_reach") if os.path.exists(mp) else None
         for chk, c in sorted(e["checks"].items()):
-            tier = c.get("caught_by") or "MISSED"
+            tier = c.get("caught_by") or ("out of reach: stubbed component" if oor else "MISSED")
             tags = ", ".join(sorted(set((c.get(tier) or c.get("quick") or {}).get("tags", []))))
             rows.append("| %s/%s | %s | %s | %s | %s |" % (d, name, what.replace("|", "/")[:110], chk, tier, tags))
 tab = "| change | what it does | check | caught at | oracle tags |\n|---|---|---|---|---|\n" + "\n".join(rows) + "\n"
@@ -36,6 +38,7 @@ if a not in s:
 s = s[:s.index(a) + len(a)] + tab + s[s.index(b):]
 open(p, "w").write(s)
 missed = [r for r in rows if "MISSED" in r]
+print("%d out of reach" % len([r for r in rows if "out of reach" in r]))
 print("%d rows, %d missed" % (len(rows), len(missed)))
 for r in missed:
     print(r)
